@@ -19,11 +19,34 @@ def validate_asm(ctx, shards, mode, module="AsmTrace", heap="4g"):
     return rej, nomeaning
 
 
+GEN_INFO = {}      # shard path -> (cmd, args) that produced it (deterministic in the seed)
+
+
 def gen_asm(ctx, cmd, args, name):
     d = ctx.sub(name)
     prefix = os.path.join(d, "a")
     stats = ctx.harness_json([cmd, "-out", prefix, "-seed", ctx.seed] + args)
+    for f in shard_files(prefix):
+        GEN_INFO[f] = (cmd, [str(a) for a in args], ctx.seed)
     return shard_files(prefix), stats
+
+
+def rerun_in_context(ctx, shard, idx, mode, module, n):
+    """A rejection that does not reproduce in isolation may depend on state the code under test carried over from the
+    PRECEDING cases of the same process (a cache, a pool).  Re-run the deterministic generator with the same seed and
+    arguments and validate the same shard again: the same line must be rejected again."""
+    if shard not in GEN_INFO:
+        return None
+    cmd, args, seed = GEN_INFO[shard]
+    d = ctx.sub("rerun%d" % n)
+    prefix = os.path.join(d, "a")
+    ctx.harness_json([cmd, "-out", prefix, "-seed", seed] + args)
+    again = os.path.join(d, os.path.basename(shard))
+    r = ctx.tlc(module, cfg=module + ".cfg", env=dict(VERIF_TRACE=again, VERIF_MODE=mode, VERIF_EXPLAIN="1"), heap="4g")
+    if idx not in r["rejects"] or read_line(again, idx) != read_line(shard, idx):
+        return None
+    return dict(kind="rerun", cmd=cmd, args=args, seed=seed, shard=os.path.basename(shard), line=idx, mode=mode, module=module,
+                event=read_line(again, idx))
 
 
 def render_prog_brief(p):
@@ -71,7 +94,17 @@ def reproduce_asm(ctx, mode, rejects, replay_cmd="prog-replay", cap=25, sigfn=as
         re_file = os.path.join(d, "re.000.ndjson")
         r = ctx.tlc(module, cfg=module + ".cfg", env=dict(VERIF_TRACE=re_file, VERIF_MODE=mode, VERIF_EXPLAIN="1"))
         if not r["rejects"]:
-            raise ToolError("rejection (%s) did not reproduce when re-executed alone" % sig)
+            # not reproducible alone: does it reproduce in the context of the preceding cases?
+            src_shard, src_idx = next((sh, i) for sh, i in rejects if read_line(sh, i) == e)
+            payload = rerun_in_context(ctx, src_shard, src_idx, mode, module, n) if n <= 4 else None
+            if payload is None and n > 4:
+                continue
+            if payload is None:
+                raise ToolError("rejection (%s) reproduced neither alone nor when the whole generation was repeated" % sig)
+            ctx.violation(sig + " [only after the preceding cases of the same process]",
+                          "%s: reproduced by repeating the deterministic generation (seed %s), not when the case is executed alone - "
+                          "the code under test carries state over between calls: %s" % (e["ev"], payload["seed"], json.dumps({k: v for k, v in e.items() if k != "texts"})[:700]), payload)
+            continue
         e2 = read_line(re_file, 1)
         expect = [p for p in r["prints"] if p[0] == "EXPECT"]
         if e2["ev"] == "prog":
@@ -81,6 +114,19 @@ def reproduce_asm(ctx, mode, rejects, replay_cmd="prog-replay", cap=25, sigfn=as
             what = "%s: %s" % (e2["ev"], json.dumps(e2)[:800])
         ctx.violation(sig, what, dict(kind="asm", mode=mode, module=module, replay_cmd=replay_cmd, event=e2, texts=e2.get("texts"),
                                       spec_expected=expect[0][1] if expect else None, others_with_same_signature=len(evs) - 1))
+
+
+def replay_rerun(ctx, payload):
+    d = ctx.sub("replay")
+    prefix = os.path.join(d, "a")
+    ctx.harness_json([payload["cmd"], "-out", prefix, "-seed", payload["seed"]] + payload["args"])
+    again = os.path.join(d, payload["shard"])
+    module = payload["module"]
+    r = ctx.tlc(module, cfg=module + ".cfg", env=dict(VERIF_TRACE=again, VERIF_MODE=payload["mode"]), heap="4g")
+    ctx.cov["traces_validated_against_impl"] = count_lines(again)
+    ctx.cov["evaluations"] = count_lines(again)
+    if payload["line"] in r["rejects"]:
+        ctx.violation(payload["signature"], payload["what"], {k: v for k, v in payload.items() if k not in ("signature", "what", "property", "tier")})
 
 
 def replay_asm(ctx, payload):
@@ -216,6 +262,11 @@ def run_restartable(ctx, cmd, base_args, out_prefix, total_hint=None, max_restar
         idx, ci, b64 = open(progress).read().split(" ", 2)
         crashes.append(dict(id=int(idx), cfg=int(ci), b64=b64, exit=p.returncode, stderr=p.stderr[-800:]))
         frm = int(idx) + 1
+        # a crash (a panic in a producer goroutine cannot be recovered) may leave a partial last line behind
+        for f in shard_files(out_prefix):
+            data = open(f, "rb").read()
+            if data and not data.endswith(b"\n"):
+                open(f, "wb").write(data[:data.rfind(b"\n") + 1])
     # several cases hung or crashed: stop exploring this family, they are reported (after reproduction) by the caller
     return crashes
 
